@@ -7,6 +7,7 @@ user's own) plus 1-3 operations, each with at most one injected fault:
 
     griffe.load_git(pkg, ref=R, repo=..., search_paths=[srcdir], force_inspection=F, resolve_aliases=A, extensions=E)
     griffe.check(pkg, against=R | None, base_ref=B | None, search_paths=[srcdir], force_inspection=F, extensions=[E])   (cwd = repository)
+    (a third of the operations is called from a worker thread, result / exception handed back to the main thread)
 
     faults: unknown reference; package absent at R; syntax error at R; a user branch that already has the name of Griffe's
     temporary branch; a user worktree whose directory is named like Griffe's temporary checkout (normalize(ref)) or branch; the
@@ -290,9 +291,9 @@ def _execute(op, plan, info, case, tmpdir: Path, ext_k, sub_plan) -> dict:
             sys.dont_write_bytecode = False
         ggit.subprocess = proxy
         sys.stdout = sys.stderr = captured
-        try:
+        def call():
             if op["op"] == "load_git":
-                out["result"] = griffe.load_git(
+                return griffe.load_git(
                     name,
                     ref=plan["ref"],
                     repo=str(repo),
@@ -302,16 +303,37 @@ def _execute(op, plan, info, case, tmpdir: Path, ext_k, sub_plan) -> dict:
                     resolve_aliases=bool(op["resolve_aliases"]),
                     resolve_external=op.get("external"),
                 )
+            return griffe.check(
+                name,
+                None if plan["against_none"] else plan["ref"],
+                base_ref=plan["base"],
+                search_paths=search_paths,
+                extensions=[ext],
+                force_inspection=plan["force"],
+                color=False,
+            )
+
+        try:
+            if op.get("thread"):
+                # library use from a worker thread (documentation builders, servers): result / exception are handed back
+                import threading
+
+                box: dict = {}
+
+                def target():
+                    try:
+                        box["result"] = call()
+                    except BaseException as e:  # noqa: BLE001
+                        box["exc"] = e
+
+                t = threading.Thread(target=target, name="c20-worker")
+                t.start()
+                t.join()
+                if "exc" in box:
+                    raise box["exc"]
+                out["result"] = box.get("result")
             else:
-                out["result"] = griffe.check(
-                    name,
-                    None if plan["against_none"] else plan["ref"],
-                    base_ref=plan["base"],
-                    search_paths=search_paths,
-                    extensions=[ext],
-                    force_inspection=plan["force"],
-                    color=False,
-                )
+                out["result"] = call()
         except BaseException as e:  # noqa: BLE001
             if isinstance(e, (KeyboardInterrupt, SystemExit)) and _MARK not in str(e) and not griffe_frames(e.__traceback__):
                 raise
@@ -634,6 +656,7 @@ def check_case(case) -> list[Fail]:
                     classes.append("ref-with-slash")
                 if op.get("preexisting"):
                     classes.append("preexisting-griffe-branch")
+                classes.append("called-from:" + ("worker-thread" if op.get("thread") else "main-thread"))
                 if op.get("user_wt"):
                     classes.append(f"user-worktree-dir-named-like:{op['user_wt']}")
                 if plan["ref_commit"] is not None:
